@@ -32,6 +32,24 @@ func HarnessC01Expr(L int, sema bool) {
 	}
 }
 
+// HarnessC01ExprOpen: the same on text that does not end in "}}" - what the lexer is handed for
+// a placeholder that is never closed (`${{ '`) and for an `if:` condition written without ${{ }}:
+// the input ends inside whatever token was being read.
+func HarnessC01ExprOpen(L int) {
+	src := verifSymString("src", L)
+	lex := NewExprLexer(src)
+	p := NewExprParser()
+	tree, err := p.Parse(lex)
+	verifCheck((tree == nil) != (err == nil), "tree-xor-error")
+	if err != nil {
+		verifReach("reject")
+		verifCheck(0 <= err.Offset && err.Offset <= L, "error-offset-in-input")
+		verifCheck(err.Line >= 1 && err.Column >= 1, "error-line-col-positive")
+		return
+	}
+	verifReach("accept")
+}
+
 // ---- H3: scalar / section decoders on one arbitrary YAML node ----
 
 var verifTagLens = []int{5, 6, 7, 0, 8, 11}
@@ -270,6 +288,30 @@ func HarnessC01Cron(L int, prefix int) {
 	verifReach("checked")
 }
 
+// HarnessC01Uses: a step's `uses:` value (job-level `uses:` with job != 0) of L
+// arbitrary bytes behind a concrete prefix, through the parser and the action /
+// workflow-call rules: the {owner}/{repo}[/{path}]@{ref}, docker:// and ./ splitters
+// slice the text at separators found anywhere in it.
+func HarnessC01Uses(L int, prefix int, job int) {
+	pre := []string{"", "./", "docker://", "a/b", "a@"}[prefix]
+	spec := pre + verifSymString("uses", L)
+	s := yScalar
+	var doc *yaml.Node
+	if job != 0 {
+		doc = yDoc(yMap(s("on"), s("push"), s("jobs"), yMap(s("j"), yMap(s("uses"), s(spec)))))
+	} else {
+		doc = yDoc(yMap(s("on"), s("push"), s("jobs"), yMap(s("j"), yMap(s("runs-on"), s("ubuntu-latest"), s("steps"), ySeq(yMap(s("uses"), s(spec)))))))
+	}
+	verifPlace(doc, 1, 0)
+	la := NewLocalActionsCache(nil, nil)
+	lw := NewLocalReusableWorkflowCache(nil, "/", nil)
+	errs := verifLintNode(doc, []Rule{NewRuleAction(la), NewRuleWorkflowCall("/w.yml", lw)})
+	verifReach("returned")
+	for _, e := range errs {
+		verifCheck(e.Line >= 1 && e.Column >= 1, "diagnostic-position-positive")
+	}
+}
+
 // HarnessC01NoProject: several files that belong to no repository, one of them
 // with a local reusable workflow call (valid or with a ref): LintFiles does not panic.
 func HarnessC01NoProject() {
@@ -286,6 +328,7 @@ func HarnessC01NoProject() {
 	verifSetCwd("/x")
 	verifOverride("os.ReadFile", verifC10ReadFile)
 	verifOverride("findProject", verifC10FindProject)
+	verifOverride("findProjectRoot", verifC10FindProjectRoot)
 	verifOverride("loadRepoConfig", verifC10RepoConfig)
 	l := verifLinter("/x", "", "")
 	_, err := l.LintFiles([]string{"/x/a.yml", "/x/b.yml"}, nil)
